@@ -19,7 +19,7 @@ from vlib.runner import fail, must_succeed, quiet
 PROPERTY_ID = 'C08'
 LEVEL = 'exploration'
 DESIGN_REF = 'DESIGN.md section 3, C08'
-RULE = ('Hypothesis generates C07-style abstract packages (per-file / cube, distance-independent / -dependent, permuted '
+RULE = ('One data file holds 1..3 planted sources, each from its own model (fit() re-uses one fitter for all of them). Hypothesis generates C07-style abstract packages (per-file / cube, distance-independent / -dependent, permuted '
         'parameter table, either storage order), 2..4 filters inside the SED range, an extinction law, a planted model m, '
         'A_V0 inside a generated A_V range, a planted scale (or a grid distance index), per-band flags 1 or 4 and relative '
         'errors in [1e-3, 0.5]; in half of the cases the rows of parameters.fits are re-ordered after the convolution. The reference decides non-degeneracy: every other model (and every other grid distance of '
@@ -38,12 +38,10 @@ def cases(draw):
     filters = draw(convpkg.filters_for(pkg['wav'], 2, 4, inside=True))
     nf = len(filters)
     law = draw(gen.wide_laws(8))
-    c = {'pkg': pkg, 'filters': filters, 'law': law, 'format': draw(st.sampled_from(['v1', 'v2'])),
-         'm': draw(st.integers(0, len(pkg['names']) - 1))}
+    c = {'pkg': pkg, 'filters': filters, 'law': law, 'format': draw(st.sampled_from(['v1', 'v2']))}
     lo = draw(st.sampled_from([0., -2., 1.]))
     hi = lo + draw(st.sampled_from([0.5, 10., 40.]))
     c['av_range'] = [lo, hi]
-    c['av0'] = lo + (hi - lo) * draw(st.sampled_from([0., 1., 0.5, 0.25, 0.8]))
     if pkg['apdep']:
         s = draw(gen.distance_setup(pkg['apertures'], nf))
         s['step'] = pkg['logd_step']
@@ -51,44 +49,33 @@ def cases(draw):
             s['shape'] = 'many'
         c['setup'] = s
         c['theta'] = s['theta']
-        c['dist_pick'] = draw(st.floats(0., 1., allow_nan=False))
     else:
         c['theta'] = [draw(st.floats(0.5, 10., allow_nan=False)) for _ in range(nf)]
-        c['sc0'] = draw(st.floats(-2., 2., allow_nan=False))
-    c['flags'] = [draw(st.sampled_from([1, 4])) for _ in range(nf)]
-    c['rel'] = [draw(gen.logfloat(1e-3, 0.5)) for _ in range(nf)]
+    # one data file with 1..3 sources, each planted from its own model (the fitter is re-used from source to source)
+    plants = []
+    for i in range(draw(st.integers(1, 3))):
+        plants.append({'m': draw(st.integers(0, len(pkg['names']) - 1)),
+                       'av0': lo + (hi - lo) * draw(st.sampled_from([0., 1., 0.5, 0.25, 0.8])),
+                       'dist_pick': draw(st.floats(0., 1., allow_nan=False)),
+                       'sc0': draw(st.floats(-2., 2., allow_nan=False)),
+                       'flags': [draw(st.sampled_from([1, 4])) for _ in range(nf)],
+                       'rel': [draw(gen.logfloat(1e-3, 0.5)) for _ in range(nf)]})
+    c['plants'] = plants
     c['selector'] = draw(st.sampled_from([['A', 0], ['N', 1], ['N', 3], ['F', 6.], ['C', 1e31]]))
     # the parameter file is looked up by model NAME: its rows may be re-ordered after the convolved fluxes were built
     c['reorder_after'] = list(draw(st.permutations(list(range(len(pkg['names'])))))) if draw(st.booleans()) else None
     return c
 
 
-def run_case(case, ctx):
-    from astropy import units as u
-    from sedfitter import fit, write_parameters
-    from sedfitter.convolve import convolve_model_dir
-    pkg, filters, fmt = case['pkg'], case['filters'], case['format']
+def prepare(case, plant, idx, conv, k, grid, float32):
+    """-> ('skip', label) or ('ok', dict): planted photometry from the reference + what must be recovered"""
+    pkg, filters = case['pkg'], case['filters']
     names = pkg['names']
     nf = len(filters)
-    float32 = fmt == 'v2'           # fit() memory-maps cube packages: float32 model fluxes
-    labels = {'format_' + fmt, 'apdep' if pkg['apdep'] else 'not_apdep', 'storage_' + pkg['storage']}
-    k = of.extinction_pattern(case['law']['wav'], case['law']['chi'], [f['central'] for f in filters])
-    from props.c06 import stored
-    spkg = stored(pkg, fmt)
-    conv = [convpkg.reference_convolved(spkg, f)[0] for f in filters]       # conv[j][model][aperture]
-    if any(v <= 0. for cj in conv for row in cj for v in row):
-        return labels | {'zero_flux_filter_skipped'}, False
-    m0, av0 = case['m'], case['av0']
     lo, hi = case['av_range']
-    # ---- planted photometry from the reference
+    m0, av0 = plant['m'], plant['av0']
     if pkg['apdep']:
-        dr = gen.distance_range_quantity(case['setup'])
-        dk = [float(v) for v in dr.to(u.kpc).value]
-        grids = of.distance_grid(dk[0], dk[1], pkg['logd_step'])
-        if len(grids) > 1:
-            return labels | {'ambiguous_grid_skipped'}, False
-        grid = grids[0]
-        i0 = min(int(case['dist_pick'] * len(grid)), len(grid) - 1)
+        i0 = min(int(plant['dist_pick'] * len(grid)), len(grid) - 1)
         d0 = grid[i0]
         target = []
         for j in range(nf):
@@ -96,28 +83,27 @@ def run_case(case, ctx):
             target.append(math.log10(fl / d0 ** 2) + av0 * k[j])
         sc0 = math.log10(d0)
     else:
-        dr = [1., 2.] * u.kpc
-        sc0 = case['sc0']
+        i0 = d0 = None
+        sc0 = plant['sc0']
         target = [math.log10(conv[j][m0][0]) + av0 * k[j] - 2. * sc0 for j in range(nf)]
     if any(abs(t) > 100. for t in target):
-        return labels | {'flux_out_of_float_range_skipped'}, False
+        return 'skip', 'flux_out_of_float_range_skipped'
     flux, err = [], []
     for j in range(nf):
-        rel = case['rel'][j]
-        if case['flags'][j] == 4:
+        rel = plant['rel'][j]
+        if plant['flags'][j] == 4:
             flux.append(target[j])
             err.append(rel / of.LN10)
         else:
             lf = target[j] + 0.5 * rel * rel / of.LN10
             flux.append(10. ** lf)
             err.append(rel * 10. ** lf)
-    src = {'name': 'planted', 'x': 1., 'y': 2., 'flags': case['flags'], 'flux': flux, 'err': err}
+    src = {'name': 'planted%d' % idx, 'x': 1., 'y': 2., 'flags': plant['flags'], 'flux': flux, 'err': err}
     bands = of.transform_source(src['flags'], src['flux'], src['err'])
-    # ---- non-degeneracy, decided by the reference
     slack0 = 0.
     if pkg['apdep']:
         if all(kk == 0. for kk in k):
-            return labels | {'zero_k_skipped'}, False
+            return 'skip', 'zero_k_skipped'
         refs = [of.Ref3D(bands, [conv[j][m] for j in range(nf)], pkg['apertures'], case['theta'], k, lo, hi, grid)
                 for m in range(len(names))]
         if float32:
@@ -126,26 +112,23 @@ def run_case(case, ctx):
             for i in range(len(grid)):
                 if m == m0 and i == i0:
                     continue
-                r = refs[m].at_distance(i)
-                if r['S'] <= 1e-3 + 10 * slack0:
-                    return labels | {'degenerate_skipped'}, False
-        r0 = refs[m0].at_distance(i0)
-        # A_V is only determined if moving it changes the objective
+                if refs[m].at_distance(i)['S'] <= 1e-3 + 10 * slack0:
+                    return 'skip', 'degenerate_skipped'
         swkk = sum(b[2] * kk * kk for b, kk in zip(bands, k) if b[0] == 'fit')
         av_tol = 1e-6 * (1 + abs(av0))
         if float32:
             av_tol += sum(b[2] * abs(kk) * (3e-7 * max(1., abs(L)) + 1e-7)
                           for b, kk, L in zip(bands, k, refs[m0].rows[i0]) if b[0] == 'fit') / swkk
-        sc_tol = 1e-10
+        sc_tol = 1e-10 * max(1., abs(sc0))
     else:
         refs = [of.Ref2D(bands, [math.log10(conv[j][m][0]) for j in range(nf)], k, lo, hi) for m in range(len(names))]
         if refs[m0].singular or refs[m0].cond > 1e8:
-            return labels | {'singular_skipped'}, False
+            return 'skip', 'singular_skipped'
         if float32:
             slack0 = of.float32_slack(bands, refs[m0].logmodel, k, av0, sc0)
         for m in range(len(names)):
             if m != m0 and float(refs[m].S_star) <= 1e-3 + 10 * slack0:
-                return labels | {'degenerate_skipped'}, False
+                return 'skip', 'degenerate_skipped'
         a, b, dd = float(refs[m0].m11), float(refs[m0].m12), float(refs[m0].m22)
         tr, det = a + dd, a * dd - b * b
         lmin = tr / 2 - math.sqrt(max(tr * tr / 4 - det, 0.))
@@ -158,6 +141,52 @@ def run_case(case, ctx):
             extra = math.hypot(dc1, dc2) / lmin
             av_tol += extra
             sc_tol += extra
+    what = 'source %s planted from model %s at A_V=%r, %s' % (src['name'], names[m0], av0,
+                                                             ('d=%r kpc' % d0) if pkg['apdep'] else 'scale=%r' % sc0)
+    return 'ok', {'src': src, 'm0': m0, 'av0': av0, 'sc0': sc0, 'av_tol': av_tol, 'sc_tol': sc_tol, 'slack0': slack0,
+                  'what': what}
+
+
+def run_case(case, ctx):
+    from astropy import units as u
+    from sedfitter import fit, write_parameters
+    from sedfitter.convolve import convolve_model_dir
+    pkg, filters, fmt = case['pkg'], case['filters'], case['format']
+    if 'plants' not in case:   # replay files written before several sources per data file were generated
+        case = dict(case)
+        case['plants'] = [{'m': case['m'], 'av0': case['av0'], 'dist_pick': case.get('dist_pick', 0.), 'sc0': case.get('sc0', 0.),
+                           'flags': case['flags'], 'rel': case['rel']}]
+    names = pkg['names']
+    nf = len(filters)
+    float32 = fmt == 'v2'           # fit() memory-maps cube packages: float32 model fluxes
+    labels = {'format_' + fmt, 'apdep' if pkg['apdep'] else 'not_apdep', 'storage_' + pkg['storage']}
+    k = of.extinction_pattern(case['law']['wav'], case['law']['chi'], [f['central'] for f in filters])
+    from props.c06 import stored
+    spkg = stored(pkg, fmt)
+    conv = [convpkg.reference_convolved(spkg, f)[0] for f in filters]       # conv[j][model][aperture]
+    if any(v <= 0. for cj in conv for row in cj for v in row):
+        return labels | {'zero_flux_filter_skipped'}, False
+    lo, hi = case['av_range']
+    grid = None
+    if pkg['apdep']:
+        dr = gen.distance_range_quantity(case['setup'])
+        dk = [float(v) for v in dr.to(u.kpc).value]
+        grids = of.distance_grid(dk[0], dk[1], pkg['logd_step'])
+        if len(grids) > 1:
+            return labels | {'ambiguous_grid_skipped'}, False
+        grid = grids[0]
+    else:
+        dr = [1., 2.] * u.kpc
+    plants = []
+    for idx, plant in enumerate(case['plants']):
+        status, res = prepare(case, plant, idx, conv, k, grid, float32)
+        if status == 'skip':
+            labels.add(res)
+        else:
+            plants.append(res)
+    if not plants:
+        return labels, False
+    labels.add('sources_in_data_file=%d' % len(plants))
     # ---- the pipeline under test
     with ctx.tempdir() as d:
         mdir = os.path.join(d, 'models')
@@ -169,7 +198,8 @@ def run_case(case, ctx):
             pkgio.write_parameters(mdir, names, pkg['params'], order=case['reorder_after'])
             labels.add('parameter_rows_reordered_after_convolution')
         data = os.path.join(d, 'data.txt')
-        pkgio.write_data_file(data, [pkgio.source_line(src['name'], src['x'], src['y'], src['flags'], src['flux'], src['err'])])
+        pkgio.write_data_file(data, [pkgio.source_line(p['src']['name'], p['src']['x'], p['src']['y'], p['src']['flags'],
+                                                       p['src']['flux'], p['src']['err']) for p in plants])
         out = os.path.join(d, 'out.fitinfo')
         with must_succeed('fit()'), quiet():
             fit(data, [f['name'] for f in filters], np.array(case['theta']) * u.arcsec, mdir, out, n_data_min=1,
@@ -177,51 +207,52 @@ def run_case(case, ctx):
                 output_format=tuple(case['selector']), output_convolved=False)
         with must_succeed('reading the fit output'):
             recs, _ = fg.read_fit_file(out)
-        if len(recs) != 1:
-            fail('%d records for one source' % len(recs), 'c08:record_count')
-        info = recs[0]
-        plant = 'planted model %s at A_V=%r, %s' % (names[m0], av0, ('d=%r kpc' % d0) if pkg['apdep'] else 'scale=%r' % sc0)
-        if info.n_fits < 1:
-            fail('%s: no fit survived the output selector %r' % (plant, case['selector']), 'c08:best_not_kept')
-        best = str(info.model_name[0]).strip()
-        chi2, av, sc = float(info.chi2[0]), float(info.av[0]), float(info.sc[0])
-        if best != names[m0]:
-            fail('%s: best fit is %s (chi2=%r), not the planted model' % (plant, best, chi2), 'c08:wrong_model_first')
-        if not chi2 <= 1e-6 + 2 * slack0:
-            fail('%s: best chi2 is %r, expected ~0' % (plant, chi2), 'c08:chi2_not_zero')
-        if abs(av - av0) > av_tol:
-            fail('%s: reported A_V %r (tolerance %.2e)' % (plant, av, av_tol), 'c08:av_not_recovered')
-        if abs(sc - sc0) > sc_tol * (1 if not pkg['apdep'] else max(1., abs(sc0))):
-            fail('%s: reported scale %r, expected %r' % (plant, sc, sc0), 'c08:scale_not_recovered')
-        # ---- parameter listing
+        if len(recs) != len(plants):
+            fail('%d records for %d sources' % (len(recs), len(plants)), 'c08:record_count')
         listing = os.path.join(d, 'pars.txt')
         with must_succeed('write_parameters'), quiet():
             write_parameters(out, listing, select_format=tuple(case['selector']))
         lines = open(listing).read().split('\n')
         head = lines[1].split()
         body = [l.split() for l in lines[3:] if l.strip()]
-        if len(body) < 2 or body[0][0] != 'planted' or int(body[0][1]) != nf or int(body[0][2]) != info.n_fits:
-            fail('%s: listing source line %r (expected name planted, n_data %d, n_fits %d)' % (
-                plant, body[0] if body else None, nf, info.n_fits), 'c08:listing_source_line')
-        # every listed fit shows the parameter row of the model it names
-        for tok in body[2:]:
-            r = dict(zip(head, tok))
-            mm = names.index(r['model_name']) if r.get('model_name') in names else None
-            if mm is None:
-                fail('%s: listing names an unknown model %r' % (plant, r.get('model_name')), 'c08:listing_wrong_model')
-            for col, vals in pkg['params'].items():
-                if abs(float(r[col.lower()]) - vals[mm]) > 5.1e-4 * abs(vals[mm]):
-                    fail('%s: listing row of %s shows %s = %s, that model has %r' % (plant, names[mm], col, r[col.lower()],
-                                                                                   vals[mm]), 'c08:listing_wrong_parameters')
-        row = dict(zip(head, body[1]))
-        if row.get('model_name') != names[m0]:
-            fail('%s: listing shows model %r first' % (plant, row.get('model_name')), 'c08:listing_wrong_model')
-        for col, vals in pkg['params'].items():
-            want = vals[m0]
-            got = float(row[col.lower()])
-            if abs(got - want) > 5.1e-4 * abs(want):
-                fail('%s: listing shows %s = %r next to it, its own parameter row has %r' % (plant, col, got, want),
-                     'c08:listing_wrong_parameters')
+        pos = 0
+        for info, p in zip(recs, plants):
+            plant = p['what']
+            m0 = p['m0']
+            if info.source.name != p['src']['name']:
+                fail('record order: %s where %s was expected' % (info.source.name, p['src']['name']), 'c08:record_order')
+            if info.n_fits < 1:
+                fail('%s: no fit survived the output selector %r' % (plant, case['selector']), 'c08:best_not_kept')
+            best = str(info.model_name[0]).strip()
+            chi2, av, sc = float(info.chi2[0]), float(info.av[0]), float(info.sc[0])
+            if best != names[m0]:
+                fail('%s: best fit is %s (chi2=%r), not the planted model' % (plant, best, chi2), 'c08:wrong_model_first')
+            if not chi2 <= 1e-6 + 2 * p['slack0']:
+                fail('%s: best chi2 is %r, expected ~0' % (plant, chi2), 'c08:chi2_not_zero')
+            if abs(av - p['av0']) > p['av_tol']:
+                fail('%s: reported A_V %r (tolerance %.2e)' % (plant, av, p['av_tol']), 'c08:av_not_recovered')
+            if abs(sc - p['sc0']) > p['sc_tol']:
+                fail('%s: reported scale %r, expected %r' % (plant, sc, p['sc0']), 'c08:scale_not_recovered')
+            # ---- parameter listing: source line, then one line per kept fit
+            if pos >= len(body) or body[pos][0] != p['src']['name'] or int(body[pos][1]) != nf or int(body[pos][2]) != info.n_fits:
+                fail('%s: listing source line %r (expected n_data %d, n_fits %d)' % (
+                    plant, body[pos] if pos < len(body) else None, nf, info.n_fits), 'c08:listing_source_line')
+            rows = body[pos + 1: pos + 1 + info.n_fits]
+            pos += 1 + info.n_fits
+            if len(rows) != info.n_fits:
+                fail('%s: listing is short' % plant, 'c08:listing_source_line')
+            first = dict(zip(head, rows[0]))
+            if first.get('model_name') != names[m0]:
+                fail('%s: listing shows model %r first' % (plant, first.get('model_name')), 'c08:listing_wrong_model')
+            for tok in rows:
+                r = dict(zip(head, tok))
+                mm = names.index(r['model_name']) if r.get('model_name') in names else None
+                if mm is None:
+                    fail('%s: listing names an unknown model %r' % (plant, r.get('model_name')), 'c08:listing_wrong_model')
+                for col, vals in pkg['params'].items():
+                    if abs(float(r[col.lower()]) - vals[mm]) > 5.1e-4 * abs(vals[mm]):
+                        fail('%s: listing row of %s shows %s = %s, that model has %r' % (plant, names[mm], col, r[col.lower()],
+                                                                                       vals[mm]), 'c08:listing_wrong_parameters')
     if pkg['perm'] != sorted(pkg['perm']):
         labels.add('permuted')
     return labels, len(names) >= 2
